@@ -457,7 +457,9 @@ func copiesAsConcat(s string) string {
 // allows, so that making them explicit (earlier) changes nothing for valid input.
 var impliedGuards = map[string]map[string]bool{
 	// SetMaxWorkFactor refuses values above 30, so `<= maxWorkFactor` already says `<= 30`
-	"ScryptIdentity.unwrap.guards":  {`len(Field(P1.Body)) == 32`: true, `strconv.Atoi(Elem(Field(P1.Args), 1)).0 <= 30`: true},
+	"ScryptIdentity.unwrap.guards":  {`len(Field(P1.Body)) == 32`: true, `strconv.Atoi(Elem(Field(P1.Args), 1)).0 <= 30`: true,
+		// a canonical decimal (no leading zero: the pattern guard) with more digits than the maximum is larger than it
+		`len(Elem(Field(P1.Args), 1)) <= len(strconv.Itoa(Field(Recv.maxWorkFactor)))`: true},
 	"X25519Identity.unwrap.guards":  {`len(Field(P1.Body)) == 32`: true},
 	"Ed25519Identity.unwrap.guards": {`len(Field(P1.Body)) == 32`: true},
 	// native keys are 32 bytes (the constructors refuse any other length themselves)
